@@ -586,3 +586,290 @@ def _line_tie(key):
 
     fills = ast.literal_eval(key[2])
     return key[4] is not None and any(abs(p - key[4]) < 1e-9 for p, _ in fills)
+
+
+# -------------------------------------------------------------------------------------------
+# C09 runner removal
+# -------------------------------------------------------------------------------------------
+
+PLACEMENT_CALLERS = ("_process_price_matched", "_process_price_matched_vwap")
+
+
+def reduced_price(p, af):
+    if af is not None and af >= 2.5:
+        return max(round(p * (1 - af / 100.0), 2), 1.01)
+    return p
+
+
+def c09_removals(tr, out, snaps_by_market, case, tags):
+    # tick of every line of every market
+    tick_of = {}
+    for t, tk in enumerate(tr.ticks):
+        tick_of.setdefault((tk["market"], tk["pt"]), t)
+    removal_ticks = collections.defaultdict(list)  # market -> [(tick, key, af, own_afs)]
+    for m, snaps in snaps_by_market.items():
+        for i, key, af in removal_updates(snaps):
+            t = tick_of.get((m, snaps[i]["pt"]))
+            if t is None:
+                continue
+            removal_ticks[m].append((t, key, af, {k: r["af"] for k, r in snaps[i]["runners"].items()}, snaps[i]["market_type"], snaps[i]["status"]))
+    placements = collections.defaultdict(list)
+    for pl in tr.placements:
+        placements[pl["o"]].append(pl)
+    for o, ss in tr.samples.items():
+        if not ss:
+            continue
+        m = ss[0]["market"]
+        sel = tuple(ss[0]["sel"])
+        rems = removal_ticks.get(m, [])
+        rem_by_tick = collections.defaultdict(list)
+        for r in rems:
+            rem_by_tick[r[0]].append(r)
+        own_removed_tick = min((r[0] for r in rems if r[1] == sel), default=None)
+        cause = cause_of(tags, o)
+        prev = None
+        for s in ss:
+            t = s["tick"]
+            # ---- orders on the removed runner
+            if own_removed_tick is not None and t >= own_removed_tick and (t > own_removed_tick or s["phase"] != "pre"):
+                out.rule("void")
+                state = "none" if prev is None or prev["tick"] >= own_removed_tick else prev["status"]
+                vt = {"otype": s["otype"], "state_before": state if t == own_removed_tick else "later", "cause": cause}
+                if s["sm"] != 0 or any(f[2] for f in s["frags"]):
+                    out.v("removed-runner-order-still-matched", vt, order=o, sample=s)
+                if s["otype"] == "LIMIT" and s["srem"] != 0 and s["status"] != "PENDING":
+                    out.v("removed-runner-order-has-remaining", vt, order=o, sample=s)
+                if s["phase"] in ("book", "closed") and t > own_removed_tick and not s["complete"] and s["status"] != "PENDING":
+                    out.v("removed-runner-order-not-complete", {"otype": s["otype"], "status": s["status"], "cause": cause}, order=o, sample=s)
+                if s["phase"] == "closed" and abs(s.get("profit", 0.0)) > 1e-9:
+                    out.v("removed-runner-order-has-profit", vt, order=o, sample=s)
+            # ---- orders on other runners: reduction exactly once
+            if prev is not None and (own_removed_tick is None or t < own_removed_tick):
+                here = [r for r in rem_by_tick.get(t, []) if r[1] != sel] if (t != prev["tick"] and s["phase"] == "mw") else []
+                n0 = len(prev["frags"])
+                exp = [f[1] for f in prev["frags"]]
+                if here:
+                    # fragments appended by a placement executed at this update before the middleware ran are reduced too
+                    # (taken from the placement record, which sees the list after a fill-or-kill roll-back)
+                    for pl in placements.get(o, ()):
+                        if pl["tick"] == t and pl["seq"] < s["seq"]:
+                            exp = exp + [f[1] for f in pl.get("frags", [])]
+                    moc_lay = s["otype"] == "MOC" and s["side"] == "LAY"
+                    for (_, key, af, own_afs, mt, mst) in here:
+                        out.rule("reduction")
+                        out.d("c09:%s:%s:%s:%s" % (mt, "none" if af is None else ("lt" if af < 2.5 else "ge"), s["otype"], s["status"]))
+                        if moc_lay:
+                            own = own_afs.get(sel)
+                            expL = prev["liability"]
+                            if af is not None:
+                                if mt == "WIN" and own is not None:
+                                    expL = prev["liability"] * (1 - af / (100.0 - own))
+                                elif mt in ("PLACE", "OTHER_PLACE"):
+                                    expL = prev["liability"] * (100.0 - af) * 0.01
+                            if mt == "WIN" and own is None and af is not None:
+                                pass  # the formula needs the runner's own factor: unconstrained
+                            elif abs(s["liability"] - expL) > 1e-6:
+                                out.v("sp-lay-liability-not-scaled", {"market_type": mt, "cause": cause}, order=o, before=prev, after=s, expected=expL, factor=af, own=own)
+                            prev = dict(prev, liability=s["liability"])
+                        else:
+                            exp = [reduced_price(p, af) for p in exp]
+                    if not moc_lay:
+                        got = [f[1] for f in s["frags"][: len(exp)]]
+                        if len(got) < len(exp) or any(abs(a - b) > 0.0051 for a, b in zip(got, exp)):
+                            afs = [r[2] for r in here]
+                            out.v(
+                                "matched-price-not-reduced-as-stated",
+                                {"factor": "none" if afs[0] is None else ("lt2.5" if afs[0] < 2.5 else "ge2.5"), "cause": cause, "floor": any(x <= 1.0101 for x in exp)},
+                                order=o,
+                                before=prev,
+                                after=s,
+                                expected=exp,
+                                factors=afs,
+                            )
+                else:
+                    out.rule("stable")
+                    got = [f[1] for f in s["frags"][:n0]]
+                    if len(got) < n0 or any(abs(a - b) > 1e-9 for a, b in zip(got, exp)):
+                        if not (own_removed_tick is not None):
+                            out.v("matched-price-changed-without-removal", {"cause": cause}, order=o, before=prev, after=s)
+                    if s["otype"] == "MOC" and prev["liability"] is not None and abs(s["liability"] - prev["liability"]) > 1e-9:
+                        out.v("sp-liability-changed-without-removal", {"cause": cause}, order=o, before=prev, after=s)
+            prev = s
+    # a removal in the file that never produced a tick is outside what was observed
+    out.c("removals_in_files", sum(len(v) for v in removal_ticks.values()))
+
+
+# -------------------------------------------------------------------------------------------
+# B1 worst-case exposure by brute force (C01, C11, C16)
+# -------------------------------------------------------------------------------------------
+
+EXCLUDED = {"PENDING", "VIOLATION", "EXPIRED"}
+
+
+def selection_wpp(orders):
+    """orders: exposure views of ONE selection (already without the exclusion, with the prospective order).
+    Returns (worst profit if the selection wins, worst profit if it loses) over every subset of open limit
+    orders filling fully at their limit."""
+    fixed_win = fixed_lose = 0.0
+    open_limit = []
+    for o in orders:
+        if o["status"] in EXCLUDED:
+            continue
+        if o["otype"] == "LIMIT":
+            line = o["ladder"] == "LINE_RANGE"
+            m = o["matched"] or 0.0
+            a = 2.0 if line else (o["avg"] or 0.0)
+            if m:
+                if o["side"] == "BACK":
+                    fixed_win += m * (a - 1)
+                    fixed_lose -= m
+                else:
+                    fixed_win -= m * (a - 1)
+                    fixed_lose += m
+            if not o["complete"]:
+                r = o["remaining"] or 0.0
+                p = 2.0 if line else o["price"]
+                if r and p:
+                    open_limit.append((o["side"], p, r))
+        else:
+            if o["side"] == "BACK":
+                fixed_lose -= o["liability"]
+            else:
+                fixed_win -= o["liability"]
+    best_win = best_lose = None
+    n = len(open_limit)
+    for mask in range(1 << n):
+        w = l = 0.0
+        for i in range(n):
+            if mask >> i & 1:
+                side, p, r = open_limit[i]
+                if side == "BACK":
+                    w += r * (p - 1)
+                    l -= r
+                else:
+                    w -= r * (p - 1)
+                    l += r
+        best_win = w if best_win is None else min(best_win, w)
+        best_lose = l if best_lose is None else min(best_lose, l)
+    return fixed_win + (best_win or 0.0), fixed_lose + (best_lose or 0.0)
+
+
+def market_worst_case(per_selection, number_of_winners, number_of_active_runners):
+    """per_selection: {sel: (wpp_win, wpp_lose)} for selections carrying orders.  Worst total profit over every
+    set of `number_of_winners` winners among the active runners (runners without orders contribute 0)."""
+    sels = list(per_selection)
+    others = max(0, number_of_active_runners - len(sels))
+    items = [per_selection[s] for s in sels] + [(0.0, 0.0)] * others
+    n = len(items)
+    k = min(number_of_winners, n)
+    best = None
+    for winners in itertools.combinations(range(n), k):
+        ws = set(winners)
+        tot = sum(items[i][0] if i in ws else items[i][1] for i in range(n))
+        best = tot if best is None else min(best, tot)
+    return best if best is not None else 0.0
+
+
+def order_exposure(o):
+    if o["otype"] == "LIMIT":
+        if o["ladder"] == "LINE_RANGE" or o["side"] == "BACK":
+            return o["size"]
+        return (o["price"] - 1) * o["size"]
+    return o["liability"]
+
+
+# -------------------------------------------------------------------------------------------
+# C10 limits on accepted placements (independent history)
+# -------------------------------------------------------------------------------------------
+
+
+def c10_limits(tr, out, case):
+    """Evaluate max_trade_count / max_live_trade_count / reset_seconds / place_reset_seconds on every accepted,
+    non-forced, executed placement from a shadow history built from the request log and the status events."""
+    strat = {s["name"]: s for s in case.get("strategies", [])}
+    # order -> list of (seq, complete?) from the status hook
+    timeline = collections.defaultdict(list)
+    for e in tr.status:
+        timeline[e["o"]].append((e["seq"], e["new"] in DONE))
+    trade_orders = collections.defaultdict(list)  # tkey -> orders placed (accepted) with seq
+    ctx_trades = collections.defaultdict(list)
+    last_placed = {}
+    reused = set()
+
+    def complete_at(o, seq):
+        c = False
+        for s, done in timeline.get(o, ()):
+            if s > seq:
+                break
+            c = done
+        return c
+
+    def trade_live_at(t, seq):
+        return any(not complete_at(o, seq) for o, s in trade_orders[t] if s <= seq)
+
+    last_seq_of_tick = {}
+    for e in tr.status:
+        last_seq_of_tick[e["tick"]] = max(last_seq_of_tick.get(e["tick"], 0), e["seq"])
+
+    def completion_time(t, seq, tick):
+        """simulated ms of the last update in which trade t went from live to not live, judged at quiescent
+        points only (end of each update; the request itself for the current update): a replace completes the old
+        order and places the new one inside one handler call, which is not a completion of the trade."""
+        first = min(tr.ticks_of_seq(s) for _, s in trade_orders[t]) if trade_orders[t] else tick
+        prev_live = False
+        last = None
+        for k in range(first, tick + 1):
+            cp = seq if k == tick else last_seq_of_tick.get(k)
+            if cp is None:
+                continue
+            now_live = trade_live_at(t, cp)
+            if prev_live and not now_live:
+                last = k
+            prev_live = now_live
+        return None if last is None else tr.ticks[last]["pt"]
+
+    seq_ms = {}
+    for e in tr.status:
+        seq_ms[e["seq"]] = tr.ticks[e["tick"]]["pt"] if e["tick"] >= 0 else None
+    for r in tr.requests:
+        if r["kind"] != "PLACE" or not r.get("result"):
+            continue
+        key = (r["strategy"], tuple(r["lookup"]))
+        t = r["t"]
+        now = tr.ticks[r["tick"]]["pt"]
+        if r["execute"]:
+            sp = strat.get(r["strategy"], {})
+            mtc = sp.get("max_trade_count", 1e6)
+            mltc = sp.get("max_live_trade_count", 1e6)
+            multi = sp.get("multi_order_trades", True)
+            known = ctx_trades[key]
+            live_now = [x for x in known if trade_live_at(x, r["seq"])]
+            if r["trade_status"] == "COMPLETE":
+                reused.add(t)
+            if not r["force"] and not any(x in reused for x in known + [t]) and not r["trade_params"][2]:
+                out.rule("limit")
+                tags = {"multi": multi}
+                exempt = multi and t in live_now
+                if not exempt:
+                    if (len(known) >= mtc and t not in known) or len(known) > mtc:
+                        out.v("accepted-beyond-max-trade-count", tags, request=_rq(r), trades=len(known), limit=mtc)
+                    if (len(live_now) >= mltc and t not in live_now) or len(live_now) > mltc:
+                        out.v("accepted-beyond-max-live-trade-count", tags, request=_rq(r), live=len(live_now), limit=mltc)
+                    reset_s, place_s, _ = r["trade_params"]
+                    # cool-down after a completed trade
+                    comps = [completion_time(x, r["seq"], r["tick"]) for x in known]
+                    comps = [c for c in comps if c is not None]
+                    if comps and reset_s and (now - max(comps)) / 1000.0 < reset_s - 1e-9:
+                        out.v("accepted-within-reset-seconds", dict(tags, elapsed_zero=now == max(comps)), request=_rq(r), elapsed=(now - max(comps)) / 1000.0, reset_seconds=reset_s)
+                    lp = last_placed.get(key)
+                    if lp is not None and place_s and (now - lp) / 1000.0 < place_s - 1e-9:
+                        out.v("accepted-within-place-reset-seconds", dict(tags, elapsed_zero=now == lp), request=_rq(r), elapsed=(now - lp) / 1000.0, place_reset_seconds=place_s)
+                out.d("c10:%s:%s:%s:%s" % (min(len(known), 3), min(len(live_now), 3), multi, t in known))
+            if t not in known:
+                known.append(t)
+            last_placed[key] = now
+        trade_orders[t].append((r["o"], r["seq"]))
+
+
+def _rq(r):
+    return {k: r[k] for k in ("seq", "tick", "kind", "o", "t", "strategy", "lookup", "force", "execute", "trade_params", "trade_status")}
